@@ -37,7 +37,7 @@ class FirFilter:
         x_full = np.concatenate([self.x_prev, x])
         # carry the last N-1 samples of everything seen so far
         n_keep = min(self.N - 1, len(x_full))
-        self.x_prev = x_full[len(x_full) - n_keep:]
+        self.x_prev = x_full[len(x_full) - n_keep:].astype(dtype)
         y = self.convolve_valid(x_full, self.h).astype(dtype)
         return y
 
